@@ -42,6 +42,9 @@ func wrapVariants(s string) []string {
 	for _, j := range []string{" ", "\t", "\n", "\r\n", "\v", "\f", "\u00a0", "\u2003", "\ufeff", "\x00", "\x85"} {
 		out = append(out, j+s, s+j, j+s+j, s[:len(s)/2]+j+s[len(s)/2:])
 	}
+	for _, j := range []string{"?", "?amount=1", "#", "&x", "/", "//", ";", ",", "=", "@"} { // what follows an address in a URI or a list
+		out = append(out, s+j, j+s, s[:len(s)/2]+j+s[len(s)/2:])
+	}
 	return out
 }
 
